@@ -11,6 +11,7 @@ import LouModel.Forward
 import LouModel.ForwardCtx
 import LouModel.Compile
 import LouModel.Backward
+import LouModel.BackwardCtx
 import LouModel.OneToOne
 import LouModel.Proto
 import LouModel.Engine
@@ -113,7 +114,18 @@ def handle? (reg : List (String × Table)) (toks : List String) : Option String 
       let input ← parseWide inh
       let cur : Option Int ← (if cursor == "-" then some none else cursor.toInt?.map some)
       match Back.unsupported t with
-      | some why => pure s!"UNSUPPORTED {why}"
+      | some why =>
+        -- outside B0: the backward main pass with context rules (BackwardCtx.lean), as a stage of any table
+        match BackC.unsupportedC t with
+        | some _ => pure s!"UNSUPPORTED {why}"
+        | none =>
+          match BackC.translateC t mode (input.takeWhile (· != 0)) cap (cur.getD (-1)) with
+          | .done r =>
+            let ms := if r.map.isEmpty then "." else ",".intercalate (r.map.map fun (o : Option Int) => match o with | some v => toString v | none => "?")
+            pure s!"P {showWide r.out} {ms} {r.realInlen} {r.cpos} {r.cstat} rules={showRules r.applied}"
+          | .fuel => pure "FUEL"
+          | .failed => pure "FAILED"
+          | .unsupported => pure "UNSUPPORTED instruction outside the fragment"
       | none =>
         let input := input.takeWhile (· != 0)
         let r := Back.translate t mode input cap (cur.getD (-1))
